@@ -69,7 +69,7 @@ func Minimise(sc *scen.Scenario, budget int, fails func(*scen.Scenario) bool) *s
 			var nv any
 			switch x := v.(type) {
 			case float64:
-				if x == 0 {
+				if x == 0 || protectedNumber(path) {
 					continue
 				}
 				nv = float64(0)
@@ -126,6 +126,22 @@ func protectedPath(p []any) bool {
 					return true
 				}
 			}
+		}
+	}
+	return false
+}
+
+// protectedNumber: the ids of loggers, destinations and shared objects are names, not magnitudes - zeroing one
+// makes the op speak about another object (logger 0 is the package's default logger, whose destinations a
+// world may not record), which can "reproduce" a witness for an unrelated reason.
+func protectedNumber(p []any) bool {
+	if len(p) == 0 {
+		return false
+	}
+	if k, ok := p[len(p)-1].(string); ok {
+		switch k {
+		case "l", "r", "w", "ref":
+			return true
 		}
 	}
 	return false
